@@ -89,7 +89,25 @@ def run(ctx):
         lf = df.add_logical_file()
         lf.add_origin('O', file_set_number=1, creation_time='2020/01/01 00:00:00')
         units = rng.choice([None, 'm', 's'])
-        ch = lf.add_channel('IDX', data=np.array(vals, dtype=dtype), units=units)
+        # a cast dtype on the index channel: the statistics are those of the rows WRITTEN (after the cast), e.g. 0.7, 1.7, .. cast to
+        # int32 is written as 0, 1, .. and INDEX-MIN is 0, not 0.7
+        src = np.array(vals, dtype=dtype)
+        cast = None
+        if rng.random() < 0.3:
+            cast = rng.choice(datagen.DTYPES)
+            if np.dtype(dtype).kind == 'f' and np.dtype(cast).kind in 'iu':
+                src = src + np.dtype(dtype).type(rng.choice([0.7, 0.25, 0.5]))
+            tr = np.trunc(src.astype(np.float64))
+            if np.dtype(cast).kind in 'iu':
+                ok_cast = bool((tr >= np.iinfo(cast).min).all() and (tr <= np.iinfo(cast).max).all())
+            else:
+                ok_cast = bool((src.astype(cast).astype(np.float64) == src.astype(np.float64)).all())
+            if not ok_cast or cast == dtype:
+                cast, src = None, np.array(vals, dtype=dtype)
+        written = src if cast is None else src.astype(cast)
+        if cast is not None:
+            vals = [int(x) if float(x) == int(x) else float(x) for x in written.tolist()]
+        ch = lf.add_channel('IDX', data=src, units=units, **({'cast_dtype': np.dtype(cast).type} if cast else {}))
         ch2 = lf.add_channel('OTHER', data=np.arange(rows, dtype=np.float64))
         from dliswriter import AttrSetup
 
@@ -105,7 +123,8 @@ def run(ctx):
         ctx.count('K-index', key=(dtype, pat, rows, a, b, indexed, tuple(sorted(user))))
         ctx.stat('K-index', 'pattern_' + pat)
         ctx.stat('K-index', 'dtype_' + dtype)
-        det = {'dtype': dtype, 'pattern': pat, 'index_values': vals, 'window': [a, b], 'index_type': indexed, 'user': user, 'routes': routes, 'units': units}
+        ctx.stat('K-index', 'index_cast_' + str(cast))
+        det = {'dtype': dtype, 'cast': cast, 'source_values': src.tolist(), 'pattern': pat, 'index_values': vals, 'window': [a, b], 'index_type': indexed, 'user': user, 'routes': routes, 'units': units}
         if o[0] != 'ok':
             ctx.violation('write-raises-for-valid-index-data', {**det, 'impl': o})
             continue
